@@ -3,7 +3,7 @@
 import copy
 import re
 
-from harness import annot, common
+from harness import annot, common, srcrun
 
 LEVEL_NOTE = ("Theorems on the model of the re-referencing fold (every index points to the cited reference, each "
               "reference once, first-use order) for all feature/citation lists; _assembly.py tied by comparing the "
@@ -55,6 +55,7 @@ def run_product(case):
     q = case["q"]
     out = {"calls": []}
     pre = annot.cit_snapshot(ents)
+    out["src_inputs"] = [srcrun.dump_input(e) for e in ents]
     if case.get("fail_first") == "missing":
         # a consecutive-calls history that starts with an assembly that cannot complete (one module left out)
         fobs, _ = implutil.observe_assembly(ents[q], [ents[i] for i in case["order"][1:]], id="prod", name="prod")
@@ -67,7 +68,9 @@ def run_product(case):
             f = cited[len(cited) // 2]
             f.qualifiers["citation"].append("[99]")
             before = annot.cit_snapshot(ents)
+            out["src_failed_inputs"] = [srcrun.dump_input(e) for e in ents]
             fobs, _ = implutil.observe_assembly(ents[q], [ents[i] for i in case["order"]], id="prod", name="prod")
+            out["src_failed_obs"] = fobs
             out["failed_call"] = {"out": fobs.get("out") + ":" + str(fobs.get("exc")), "inputs_same": annot.cit_snapshot(ents) == before}
             if f.qualifiers["citation"][-1] == "[99]":
                 f.qualifiers["citation"].pop()
@@ -76,6 +79,9 @@ def run_product(case):
     for _ in range(case["calls"]):
         obs, prod = implutil.observe_assembly(ents[q], [ents[i] for i in case["order"]], id="prod", name="prod")
         view = annot.product_view(prod) if prod is not None else None
+        if "src_obs" not in out:
+            out["src_obs"] = obs
+            out["src_product"] = srcrun.dump_product(prod) if prod is not None else None
         out["calls"].append({"obs": {k: obs.get(k) for k in ("out", "exc", "msg")}, "product": view,
                              "inputs_same": annot.cit_snapshot(ents) == pre})
     # the same assembly without any citation or reference
@@ -212,6 +218,41 @@ def run(ctx):
         ctx.disagreements.append({"case": cases[i], "impl": res[i]["calls"][0],
                                   "observable": "product reference list and citation indices vs Citations.product_citations",
                                   "model_fn": "Citations.product_citations"})
+    src_cases(ctx, cases, res)
+
+
+def src_terms(ctx, c, r):
+    """the calls of the case as run through vector.assemble regenerated from the source"""
+    q = c["q"]
+    out = []
+    for inputs, obs, prod in ((r.get("src_failed_inputs"), r.get("src_failed_obs"), None),
+                              (r.get("src_inputs"), r.get("src_obs"), r.get("src_product"))):
+        if inputs is None or obs is None:
+            continue
+        vector = (c["elements"][q]["cls"], inputs[q])
+        modules = [(c["elements"][i]["cls"], inputs[i]) for i in c["order"]]
+        out.append(srcrun.c_case(ctx, vector, modules, {"id": "prod", "name": "prod"}, obs, prod))
+    return out
+
+
+def src_cases(ctx, cases, res):
+    terms, idx = [], []
+    for i, (c, r) in enumerate(zip(cases, res)):
+        try:
+            for t in src_terms(ctx, c, r):
+                terms.append(t)
+                idx.append(i)
+        except (KeyError, ValueError) as e:
+            ctx.disagreements.append({"case": c, "observable": "src: " + str(e)})
+    ctx.count("src-runs", len(terms))
+    bad = common.coq_eval_cases(ctx, "srcrun", srcrun.IMPORTS, terms, "src_run_check", per_file=60)
+    for b in bad:
+        i = idx[b]
+        ctx.disagreements.append({"case": cases[i], "impl": {"obs": res[i].get("src_obs"), "product": res[i].get("src_product")},
+                                  "observable": "vector.assemble as regenerated from the source (run_assemble): product record "
+                                                "(sequence, ids, feature table with citations, references, annotations, comment), "
+                                                "unused modules or exception class, inputs unchanged",
+                                  "model_fn": "Gen/Src.v run_assemble"})
 
 
 def replay(ctx, data):
